@@ -7,7 +7,8 @@ from harness.drivers import engine_cases_ctl as ecc
 ID = "C03"
 PROP_FILE = "Props/C03.v"
 THEOREMS = ["C03_rewind_restores_counters", "C03_checkpoint_then_rewind_roundtrip", "C03_rewind_cancels_bundle",
-            "C03_engine_rewind_resets", "C03_partial"]
+            "C03_engine_rewind_resets", "C03_partial", "C03_full_refuted", "C03_data_equivalence_reference",
+            "C03_data_equivalence_interruptions", "C03_data_equivalence_every_prefix"]
 impl_batch = cc.impl_batch
 coq_term = cc.coq_term
 RULE = ("C03 differential corpus: per-point plans `checkpoint; set(1, x_i); wait; create; read 1; read 2; save` (one stream, two streams, "
